@@ -1,7 +1,90 @@
-import VermouthModel.Proto
-open Proto
+import VermouthModel.C02
+import Generated.C02Tables
+open Proto C02
 
-/-- placeholder driver for C02: replaced when the model is written -/
-def handle (_ : Unit) (_ : List Tok) : Unit × String := ((), "bad-op")
+def atomOf (t : Tok) : Option Atom := do
+  match ← t.list? with
+  | [k, aid, ty, ri, rn, an, cg, ch, ms] =>
+    pure { key := ← k.int?, atomid := ← aid.optInt?, atype := ← ty.str?, resid := ← ri.str?,
+           resname := ← rn.str?, atomname := ← an.str?, cgnr := ← cg.str?, charge := ← ch.str?,
+           mass := ← ms.str? }
+  | _ => none
+
+def interOf (t : Tok) : Option Inter := do
+  match ← t.list? with
+  | [as, ps, d, nd, g, c] =>
+    pure { atoms := ← ints? as, params := ← strs? ps, ifdef := ← d.optStr?, ifndef := ← nd.optStr?,
+           group := ← g.optStr?, comment := ← c.optStr? }
+  | _ => none
+
+def namedOf {α} (f : Tok → Option α) (t : Tok) : Option (String × α) := do
+  match ← t.list? with
+  | [n, v] => pure (← n.str?, ← f v)
+  | _ => none
+
+def molOf (args : List Tok) : Option Mol := do
+  match args with
+  | [mt, nr, hd, defs, atoms, inters, pre, post] =>
+    pure { moltype := ← mt.str?, nrexcl := ← nr.str?, header := ← strs? hd,
+           defines := ← (← defs.list?).mapM (namedOf Tok.str?),
+           atoms := ← (← atoms.list?).mapM atomOf,
+           inters := ← (← inters.list?).mapM (namedOf (fun v => do (← v.list?).mapM interOf)),
+           pre := ← (← pre.list?).mapM (namedOf strs?),
+           post := ← (← post.list?).mapM (namedOf strs?) }
+  | _ => none
+
+def encErr : Err → String
+  | .valueerror => "valueerror"
+  | .keyerror => "keyerror"
+  | .indexerror => "indexerror"
+
+def encPErr : PErr → String
+  | .badDirective => "badDirective" | .unbalanced => "unbalanced" | .noSection => "noSection"
+  | .badMoltype => "badMoltype" | .badAtomRow => "badAtomRow" | .badIndex => "badIndex"
+  | .unknownSection => "unknownSection" | .badArity => "badArity" | .badRef => "badRef"
+
+def encParsed (p : Parsed) : String :=
+  let mt := match p.moltype with
+    | some (a, b) => encList [encStr a, encStr b]
+    | none => "-"
+  let atoms := encList (p.atoms.map fun a =>
+    encList [encStr a.atype, encStr a.resid, encStr a.resname, encStr a.atomname, encStr a.cgnr,
+             encOptStr a.charge, encOptStr a.mass])
+  let inters := encList (p.inters.map fun i =>
+    encList [encStr i.sect, encList (i.guard.map fun g => encList [encStr g.1, encBool g.2]),
+             encList (i.atoms.map encNat), encList (i.params.map encStr)])
+  "ok " ++ mt ++ " " ++ atoms ++ " " ++ inters
+
+def isOkEq (r : Except PErr Parsed) (p : Parsed) : Bool :=
+  match r with
+  | .ok q => decide (q = p)
+  | .error _ => false
+
+def handle (_ : Unit) (toks : List Tok) : Unit × String :=
+  let r : Option String :=
+    match toks with
+    | Tok.str "write" :: args => do
+        let m ← molOf args
+        match write m with
+        | .error e => pure ("err " ++ encErr e)
+        | .ok ls =>
+          let text := render ls
+          let wf := wellFormed arityTable m
+          let co := charOk m
+          let rtTok := isOkEq (parseTokens arityTable (ls.map lineTokens)) (canon m)
+          let rtChr := isOkEq (parse arityTable text) (canon m)
+          pure ("ok " ++ encBool wf ++ " " ++ encBool co ++ " " ++ encBool (!wf || rtTok) ++ " "
+                ++ encBool (!(wf && co) || rtChr) ++ " " ++ encStr text)
+    | [Tok.str "wf", _] => none
+    | [Tok.str "parse", t] => do
+        let s ← t.str?
+        match parse arityTable s with
+        | .ok p => pure (encParsed p)
+        | .error e => pure ("perr " ++ encPErr e)
+    | Tok.str "canon" :: args => do
+        let m ← molOf args
+        pure (encParsed (canon m))
+    | _ => none
+  ((), r.getD "bad-op")
 
 def main : IO Unit := runDriver handle ()
